@@ -114,3 +114,64 @@ def replay_calls(kind):
         if b.events:
             jobs.append((b, f"T testsuite[{js['name']}]"))
     return jobs, f"repository test-suite under the tracer: {last}"
+
+
+def call_thunk(sch, c):
+    """fn(tr) performing the recorded Transform operation `c` (None if the harness cannot rebuild it)."""
+    from . import proj
+    from .steps import mk_mark
+    f, t, op = c["from"], c["to"], c["op"]
+    if op in ("replace", "replace_range"):
+        sl = proj.unproj_slice(sch, c["slice"])
+        return (lambda tr: tr.replace(f, t, sl)) if op == "replace" else (lambda tr: tr.replace_range(f, t, sl))
+    if op in ("delete", "delete_range"):
+        return (lambda tr: tr.delete(f, t)) if op == "delete" else (lambda tr: tr.delete_range(f, t))
+    if op in ("replace_with", "replace_range_with", "insert"):
+        frag = proj.unproj_slice(sch, c["slice"]).content
+        if op == "replace_with":
+            return lambda tr: tr.replace_with(f, t, frag)
+        if op == "insert":
+            return lambda tr: tr.insert(f, frag)
+        return (lambda tr: tr.replace_range_with(f, t, frag.first_child)) if frag.child_count == 1 else None
+    if op == "add_mark":
+        m = mk_mark(sch, c["mark"])
+        return lambda tr: tr.add_mark(f, t, m)
+    if op == "remove_mark":
+        m = mk_mark(sch, c["mark"]) if c.get("mark") else (sch.marks[c["mtype"]] if c.get("mtype") else None)
+        return lambda tr: tr.remove_mark(f, t, m)
+    return None
+
+
+def sessions_of_calls():
+    """One single-operation Transform session per recorded call of the test-suite, observed for Trace_Transform."""
+    from prosemirror.transform import Transform
+
+    from . import ops, proj, sessions
+    data, last = record()
+    jobs = []
+    tid = 900000
+    from . import schemas
+    ref = schemas.build("test")[0]
+    for sch, js, calls in transform_calls(data):
+        # C04 quantifies over the bundled schemas and their variants: sessions on the ad-hoc schemas some tests
+        # build (e.g. a mark type that does not exclude itself, where undo restores the marks in another order)
+        # are outside it
+        if set(sch.nodes) != set(ref.nodes) or set(sch.marks) != set(ref.marks):
+            continue
+        b = trace.Batch(js)
+        for c in calls:
+            try:
+                rd = proj.unproj(sch, c["doc"], {k: json.loads(v) for k, v in c["ra"].items()} or None)
+                fn = call_thunk(sch, c)
+            except Exception:  # noqa: BLE001
+                continue
+            if fn is None:
+                continue
+            tid += 1
+            tr = Transform(rd)
+            b.add({"ev": "Begin", "tid": tid, "seq": 0, "doc": b.doc(proj.proj(rd)), "ra": proj.pattrs(rd.attrs)})
+            res = ops.run_op(lambda fn=fn, tr=tr: fn(tr))
+            sessions.observe(b, tr, tid, 1, c["op"], {k: v for k, v in c.items() if k in ("from", "to")}, res)
+        if b.events:
+            jobs.append((b, f"T testsuite sessions[{js['name']}]"))
+    return jobs, f"repository test-suite under the tracer: {last}"
